@@ -300,6 +300,11 @@ func runC15(c *eng.Ctx) {
 	c.WhoMayCall("Enforce", []string{"github.com/casbin/casbin/v2.Enforcer.Enforce"}, []string{"server.(*apiServer).enforcePolicy"}, []string{"server.(*apiServer).enforcePolicy"})
 	c.Floor(7)
 
+	// ---- R15.7 acquire/release pairing of the enforcer lock
+	c.Rule("R15.7", "K2")
+	ruleLockPairing(c, "server/api.go", "server/signal.go")
+	c.Floor(3)
+
 	// ---- R15.6 config key agreement
 	runConfigKeyAgreement(c, "R15.6")
 }
